@@ -12,6 +12,7 @@ import (
 	"verif/drive"
 	"verif/gen"
 	"verif/model"
+	"verif/vt"
 )
 
 // Runner holds a live shard and the model of what it must contain.
@@ -41,7 +42,7 @@ type StepInfo struct {
 func New(h gen.History) (*Runner, error) {
 	dir, cleanup := drive.CaseDir()
 	r := &Runner{H: h, Dir: dir, Path: filepath.Join(dir, "sharddb.bbolt"), Mgr: drive.Manager(h.CacheLimit), cleanup: cleanup}
-	s, err := drive.Open(r.Path, h.Schema, h.MaxPointSize, r.Mgr)
+	s, err := drive.OpenNamed(r.Path, h.Schema, h.MaxPointSize, r.Mgr, h.Rename)
 	if err != nil {
 		cleanup()
 		return nil, err
@@ -55,6 +56,10 @@ func New(h gen.History) (*Runner, error) {
 	}
 	r.S = s
 	r.M = model.NewCollection(h.Schema, h.MaxPointSize)
+	r.M.SizeNames = h.Rename
+	if len(h.Rename) > 0 {
+		vt.R().Count("cases_with_renamed_properties", 1)
+	}
 	r.base = runtime.NumGoroutine()
 	return r, nil
 }
@@ -127,7 +132,7 @@ func (r *Runner) apply(st gen.Step) (StepInfo, error) {
 		if err := r.S.Close(); err != nil {
 			return info, fmt.Errorf("close: %v", err)
 		}
-		s, err := drive.Open(r.Path, r.H.Schema, r.H.MaxPointSize, r.Mgr)
+		s, err := drive.OpenNamed(r.Path, r.H.Schema, r.H.MaxPointSize, r.Mgr, r.H.Rename)
 		if err != nil {
 			r.S = nil
 			return info, fmt.Errorf("reopen: %v", err)
@@ -151,5 +156,5 @@ func (r *Runner) Copy(mgr *cache.Manager) (*drive.Shard, error) {
 	if err := drive.CopyFile(r.Path, cp); err != nil {
 		return nil, err
 	}
-	return drive.Open(cp, r.H.Schema, r.H.MaxPointSize, mgr)
+	return drive.OpenNamed(cp, r.H.Schema, r.H.MaxPointSize, mgr, r.H.Rename)
 }
